@@ -541,6 +541,11 @@ fn td_case(ctx: &mut Ctx, case: &Json) {
                     if back.centroids != want {
                         problems.push(format!("centroids {:?} want {:?}", &back.centroids[..back.centroids.len().min(4)], &want[..want.len().min(4)]));
                     }
+                    // the merge direction is part of the state a reader takes over (the reference encodings do not
+                    // carry it); an empty digest has made no pass yet
+                    if encoding.starts_with("native") && !im.centroids.is_empty() && back.reverse_merge != im.reverse_merge {
+                        problems.push(format!("merge-direction flag {} after read + re-serialization, image had {}", back.reverse_merge, im.reverse_merge));
+                    }
                 }
                 Err(e) => problems.push(format!("re-serialized image does not decode: {}", e)),
             }
@@ -734,6 +739,15 @@ pub fn run(ctx: &mut Ctx) {
         }
         for n in [1u64, 3, 50] {
             run_case(ctx, &Json::obj().set("family", "theta").set("scenario", "theta_exact_all_versions").set("force_n", n).set("force_estimating", false).set("seed", 6u64));
+        }
+    }
+    // entry counts that need a third byte in the compressed (serial version 4) form
+    for (i, n) in [65_535u64, 65_536, 70_000].into_iter().enumerate() {
+        if (1 + i) % ctx.nshards == ctx.shard {
+            for est in [false, true] {
+                run_case(ctx, &Json::obj().set("family", "theta").set("force_n", n).set("force_estimating", est).set("seed", rt::mix(&[ctx.seed, n, est as u64])));
+            }
+            ctx.cover("theta_more_than_65535_entries");
         }
     }
     let scale = ctx.tier_pick(20u64, 800);
